@@ -139,9 +139,10 @@ def gen_uamiv_one_day(rng):
         left = 24 - c['tflag'][0][1] // 10000
         if left < ts * nt:
             continue
-        if left == ts * nt and (ts % 2 == 0 or c['tflag'][0][0] % 1000 >= 365):
+        if left == ts * nt and (ts % 2 == 0 or c['tflag'][0][0] % 1000 >= 365 or nt < 2):
             # a period that runs to midnight is stamped (next day, 0.0): the record reader counts its steps with a day of
-            # 24 only for odd steps, and knows no year end
+            # 24 only for odd steps, knows no year end, and takes the step from the FIRST time record, which therefore
+            # must not be the one that ends at midnight (21.0 -> next day 0.0 reads as a step of 2379)
             continue
         import datetime as dt
         t0 = dt.datetime.strptime('%d %06d' % tuple(c['tflag'][0]), '%Y%j %H%M%S')
